@@ -143,7 +143,7 @@ def shape_results(rnd_seed, vals):
 
 def main():
     tier = common.tier()
-    nshards, n = (16, 500) if tier == "quick" else (32, 5000)
+    nshards, n = (16, 500) if tier == "quick" else (32, 20000)
     jobs = [dict(seed="%d/%s/%d" % (common.seed(), PROP, s), n=n) for s in range(nshards)]
     R = common.Run(PROP, "exploration", RULE)
     for job, res, err in shard.run_jobs("vf.checks.C17", "worker", jobs, timeout=3600, nproc=16):
